@@ -27,6 +27,7 @@ func cat(lists ...[]string) []string {
 //	0: full (every word, literal, punctuation and error lexeme)
 //	1: parser-level without error lexemes
 //	2: compact: one representative per class the parser distinguishes, plus all operator words
+//	4: small: deep sequences (k >= 6)
 //	3: expression-level: operands, operators, brackets, function names
 func Vocab(id int) []string {
 	switch id {
@@ -36,6 +37,9 @@ func Vocab(id int) []string {
 		return cat(wordsNames, wordsOperators, wordsModifiers, wordsFunctions, wordsConstants, lexKeywords, lexLiterals, lexPunct)
 	case 2:
 		return cat([]string{"a", "T"}, wordsOperators, wordsModifiers, []string{"f", "not"}, []string{"true", "$left"}, lexKeywords, []string{"1", "2.5", "'s'", "`q`"}, lexPunct, []string{"0x"})
+	case 4:
+		return []string{"a", "T", "let", "where", "take", "count", "project", "extend", "summarize", "join", "as", "sort", "top", "render", "by", "and", "in", "f", "not",
+			"1", "'s'", "|", "(", ")", "[", "]", ",", "=", "==", "+", "-", ".", ";"}
 	case 3:
 		return cat([]string{"a", "b"}, wordsFunctions, wordsConstants, lexKeywords, lexLiterals,
 			[]string{".", ",", "+", "-", "*", "/", "%", "==", "!=", "<", "<=", ">", ">=", "=~", "!~", "(", ")", "[", "]"})
